@@ -85,6 +85,12 @@ theorem C12_seek_guard_fact :
     Thanos.Facts.postingsSeekGuard = "it.cur >= x" ∧
     Thanos.Facts.postingsStreamedSeekGuard = "it.curSeries >= x" := by decide
 
+/-- the streamed codec writes through `snappy.NewBufferedWriter` (s2 in snappy-compatible mode,
+    no `WriterPadding`): its output has identifier, compressed and uncompressed chunks only, so the
+    decoder's refusal of padding chunks (type 0xfe) is unreachable from the encoders — the harness
+    checks the chunk types of every real encoding -/
+theorem C12_writer_fact : Thanos.Facts.snappyStreamWriterCtor = "snappy.NewBufferedWriter(nil)" := by decide
+
 /-! ### non-vacuity -/
 
 -- a list with a duplicate, a two-byte diff and a large gap; its payload cut inside the two-byte
